@@ -340,8 +340,10 @@ impl<T> Drop for Vec<T> {
         for (i, bucket) in self.buckets.iter_mut().enumerate() {
             let entries = *bucket.entries.get_mut();
 
+            // a later bucket can be allocated while an earlier one never was
+            // (eager allocation, a batch whose iterator yields fewer items than reported)
             if entries.is_null() {
-                break;
+                continue;
             }
 
             let len = Location::bucket_len(i as u32);
